@@ -1,9 +1,322 @@
-// Package c01: check for property C01 (stub until implemented).
+// Package c01: threshold ECDSA signing yields one valid, canonical signature (NETMC + ENUM of configurations).
 package c01
 
-import "verif/internal/core"
+import (
+	"fmt"
+	"math/big"
+	"runtime"
+	"sync"
 
-// Implemented reports whether this check is built.
-const Implemented = false
+	"github.com/bnb-chain/tss-lib/v2/common"
+	eckg "github.com/bnb-chain/tss-lib/v2/ecdsa/keygen"
 
-func Run(r *core.Run) { r.Cap("not implemented") }
+	"verif/internal/core"
+	"verif/internal/fix"
+	"verif/internal/netrun"
+	"verif/internal/oracle"
+	"verif/internal/protomc"
+	"verif/internal/ref"
+	"verif/internal/scen"
+)
+
+const Implemented = true
+
+type digestCase struct {
+	name string
+	m    *big.Int
+}
+
+func digests() []digestCase {
+	q := ref.Secp256k1.N
+	g1 := new(big.Int).SetBytes(core.Bytes("c01-digest-1", 32))
+	g1.Mod(g1, q)
+	g2 := new(big.Int).SetBytes(core.Bytes("c01-digest-2", 32))
+	g2.Mod(g2, q)
+	return []digestCase{
+		{"0", big.NewInt(0)},
+		{"1", big.NewInt(1)},
+		{"2", big.NewInt(2)},
+		{"q-1", new(big.Int).Sub(q, big.NewInt(1))},
+		{"q-2", new(big.Int).Sub(q, big.NewInt(2))},
+		{"2^248-1(leading zero byte)", new(big.Int).Sub(new(big.Int).Lsh(big.NewInt(1), 248), big.NewInt(1))},
+		{"2^8(31 leading zero bytes)", big.NewInt(256)},
+		{"generic-1", g1},
+		{"generic-2", g2},
+	}
+}
+
+type keyCase struct {
+	name string
+	keys []eckg.LocalPartySaveData
+	t    int
+}
+
+func subsetsAtLeast(n, k int) [][]int {
+	var out [][]int
+	for sz := k; sz <= n; sz++ {
+		out = append(out, oracle.Subsets(n, sz)...)
+	}
+	return out
+}
+
+func orderFor(variant, n int) []int {
+	switch variant % 3 {
+	case 1: // reversed
+		o := make([]int, n)
+		for i := range o {
+			o[i] = n - 1 - i
+		}
+		return o
+	case 2: // rotated
+		o := make([]int, n)
+		for i := range o {
+			o[i] = (i + 1) % n
+		}
+		return o
+	}
+	return nil
+}
+
+// groupSecret interpolates the private key from all shares (the harness holds every share).
+func groupSecret(keys []eckg.LocalPartySaveData, t int) *big.Int {
+	q := ref.Secp256k1.N
+	xs := make([]*big.Int, t+1)
+	for i := 0; i <= t; i++ {
+		xs[i] = new(big.Int).Mod(keys[i].ShareID, q)
+	}
+	l := ref.LagrangeAtZero(q, xs)
+	x := big.NewInt(0)
+	for i := 0; i <= t; i++ {
+		x.Mod(x.Add(x, new(big.Int).Mul(l[i], keys[i].Xi)), q)
+	}
+	return x
+}
+
+type sigClass struct{ neg, odd, rz, sz bool }
+
+func (c sigClass) String() string {
+	return fmt.Sprintf("S-negated=%v,R.y-odd=%v,R-leading-zero=%v,S-leading-zero=%v", c.neg, c.odd, c.rz, c.sz)
+}
+
+// predict the signature class from the parties' nonce shares k_i (first draw of every party's stream).
+func predict(labels []string, x, m *big.Int) (sigClass, *big.Int) {
+	c := ref.Secp256k1
+	q := c.N
+	k := big.NewInt(0)
+	for _, l := range labels {
+		ki := common.GetRandomPositiveInt(core.NewDRBG(l), q)
+		k.Mod(k.Add(k, ki), q)
+	}
+	kinv := new(big.Int).ModInverse(k, q)
+	R := c.BaseMul(kinv)
+	r := new(big.Int).Mod(R.X, q)
+	s := new(big.Int).Mul(k, new(big.Int).Add(m, new(big.Int).Mul(r, x)))
+	s.Mod(s, q)
+	var cl sigClass
+	half := new(big.Int).Rsh(q, 1)
+	if s.Cmp(half) > 0 {
+		cl.neg = true
+		s.Sub(q, s)
+	}
+	cl.odd = R.Y.Bit(0) == 1
+	cl.rz = r.BitLen() <= 248
+	cl.sz = s.BitLen() <= 248
+	return cl, r
+}
+
+func Run(r *core.Run) {
+	w := runtime.NumCPU()
+	kcs := []keyCase{
+		{"generated(n=2,t=1,ids=small)", scen.EcKey("small", 2, 1, r.Seed), 1},
+		{"generated(n=3,t=1,ids=near-q)", scen.EcKey("near-q", 3, 1, r.Seed), 1},
+		{"generated(n=3,t=2,ids=large)", scen.EcKey("large", 3, 2, r.Seed), 2},
+		{"vendored(n=5,t=2)", fix.EcFixtures(), 2},
+	}
+	if r.Tier == "thorough" {
+		kcs = append(kcs, keyCase{"generated(n=4,t=1,ids=multiples)", scen.EcKey("multiples", 4, 1, r.Seed), 1},
+			keyCase{"generated(n=4,t=3,ids=small)", scen.EcKey("small", 4, 3, r.Seed), 3})
+	}
+	ds := digests()
+	lens := []int{0, 32}
+
+	type fc struct {
+		kc    keyCase
+		sub   []int
+		d     digestCase
+		full  int
+		order []int
+		label string
+		seedOverride map[int]string
+		predR        *big.Int
+	}
+	var cases []fc
+	ci := 0
+	for ki, kc := range kcs {
+		for _, sub := range subsetsAtLeast(len(kc.keys), kc.t+1) {
+			if ki == 0 || r.Tier == "thorough" { // full product
+				for _, d := range ds {
+					for _, fl := range lens {
+						cases = append(cases, fc{kc: kc, sub: sub, d: d, full: fl, order: orderFor(ci, len(sub))})
+						ci++
+					}
+				}
+			} else { // quick: three (digest,len) pairs per subset, rotating through the alphabet
+				for k := 0; k < 3; k++ {
+					cases = append(cases, fc{kc: kc, sub: sub, d: ds[(ci)%len(ds)], full: lens[(ci/len(ds)+k)%2], order: orderFor(ci, len(sub))})
+					ci++
+				}
+			}
+		}
+	}
+	// nonce classes on the cheapest key: one seed per class of the canonical-form branches
+	{
+		kc := kcs[0]
+		x := groupSecret(kc.keys, kc.t)
+		m := ds[7].m
+		want := map[sigClass]bool{}
+		for _, neg := range []bool{false, true} {
+			for _, odd := range []bool{false, true} {
+				want[sigClass{neg, odd, false, false}] = true
+			}
+		}
+		foundRZ, foundSZ := false, false
+		for seed := 0; seed < 4000 && (len(want) > 0 || !foundRZ || !foundSZ); seed++ {
+			labels := []string{fmt.Sprintf("c01-nonce-%d-0", seed), fmt.Sprintf("c01-nonce-%d-1", seed)}
+			cl, pr := predict(labels, x, m)
+			take := false
+			base := sigClass{cl.neg, cl.odd, false, false}
+			if !cl.rz && !cl.sz && want[base] {
+				delete(want, base)
+				take = true
+			}
+			if cl.rz && !foundRZ {
+				foundRZ, take = true, true
+			}
+			if cl.sz && !foundSZ {
+				foundSZ, take = true, true
+			}
+			if take {
+				cases = append(cases, fc{kc: kc, sub: []int{0, 1}, d: ds[7], full: 0, label: "nonce-class:" + cl.String(),
+					seedOverride: map[int]string{0: labels[0], 1: labels[1]}, predR: pr})
+			}
+		}
+		if len(want) > 0 || !foundRZ || !foundSZ {
+			r.Cap("nonce class search did not find a seed for every class")
+		}
+	}
+
+	var mu sync.Mutex
+	core.ParallelFor(len(cases), w/2+1, func(i int) {
+		c := cases[i]
+		keys := make([]eckg.LocalPartySaveData, len(c.sub))
+		for k, s := range c.sub {
+			keys[k] = c.kc.keys[s]
+		}
+		cfg := netrun.Config{Proto: netrun.EcdsaSigning, EcKeys: keys, Threshold: c.kc.t, Msg: c.d.m, FullBytesLen: c.full, Seed: r.Seed,
+			Label: fmt.Sprint(c.kc.name, c.sub, i), IDOrder: c.order, SeedOverride: c.seedOverride}
+		name := fmt.Sprintf("%s/signers=%v/order=%v/digest=%s/len=%d %s", c.kc.name, c.sub, c.order, c.d.name, c.full, c.label)
+		nw, err := netrun.New(cfg)
+		if err != nil {
+			r.Violate("fifo/constructor-error", err.Error(), name)
+			return
+		}
+		_, e, pan := nw.RunFIFO()
+		r.Count("fifo_runs", 1)
+		r.Distinct("fifo_case_classes", fmt.Sprintf("%s|size=%d|%s|%d", c.kc.name, len(c.sub), c.d.name, c.full))
+		if len(pan) > 0 {
+			r.Violate("fifo/panic/digest="+c.d.name, pan[0], name)
+			return
+		}
+		if e != nil {
+			r.Violate("fifo/error/digest="+c.d.name, e.Error(), name)
+			return
+		}
+		var first *common.SignatureData
+		for p, n := range nw.Nodes {
+			if len(n.Ends) != 1 {
+				r.Violate("fifo/no-result", fmt.Sprintf("node %d has %d results", p, len(n.Ends)), name)
+				return
+			}
+			sd := n.Ends[0].(*common.SignatureData)
+			if first == nil {
+				first = sd
+			} else if string(first.Signature) != string(sd.Signature) || string(first.SignatureRecovery) != string(sd.SignatureRecovery) || string(first.M) != string(sd.M) {
+				r.Violate("fifo/signers-disagree", "signers output different signature data", name)
+			}
+			for _, pr := range oracle.CheckEcdsaSig(sd, keys[0].ECDSAPub, c.d.m, c.full) {
+				r.Violate("fifo/"+pr.Key, pr.What+" ["+c.label+"]", name)
+			}
+		}
+		if c.predR != nil && new(big.Int).SetBytes(first.R).Cmp(c.predR) != 0 {
+			// the seed selection relies on k being each party's first draw; this is harness calibration, not a property
+			r.Cap("nonce prediction does not match the signature's R (seed selection seam changed): nonce classes not guaranteed")
+		}
+		// observed canonical-form classes
+		cl := sigClass{rz: len(first.R) == 32 && first.R[0] == 0, sz: len(first.S) == 32 && first.S[0] == 0, odd: len(first.SignatureRecovery) == 1 && first.SignatureRecovery[0]&1 == 1}
+		r.Distinct("observed_signature_shapes", fmt.Sprintf("recid=%x,R0zero=%v,S0zero=%v", first.SignatureRecovery, cl.rz, cl.sz))
+		if c.label != "" {
+			r.Distinct("nonce_classes_run", c.label)
+		}
+		mu.Lock()
+		r.Sample(3, map[string]interface{}{"kind": "fifo case", "case": name, "R": fmt.Sprintf("%x", first.R), "S": fmt.Sprintf("%x", first.S), "recid": fmt.Sprintf("%x", first.SignatureRecovery)})
+		mu.Unlock()
+	})
+
+	// refused digests: Start must return an error and nothing may have been sent
+	q := ref.Secp256k1.N
+	for _, bad := range []digestCase{{"q", q}, {"q+1", new(big.Int).Add(q, big.NewInt(1))}, {"2^256-1", new(big.Int).Sub(new(big.Int).Lsh(big.NewInt(1), 256), big.NewInt(1))}} {
+		for _, fl := range lens {
+			cfg := netrun.Config{Proto: netrun.EcdsaSigning, EcKeys: kcs[0].keys, Threshold: 1, Msg: bad.m, FullBytesLen: fl, Seed: r.Seed, Label: "refused"}
+			nw, err := netrun.New(cfg)
+			if err != nil {
+				r.Violate("refused-digest/constructor-error", err.Error(), bad.name)
+				continue
+			}
+			for p := range nw.Nodes {
+				res := nw.Start(p)
+				r.Count("refused_digest_starts", 1)
+				if res.Panic != "" {
+					r.Violate("refused-digest/panic/"+bad.name, res.Panic, bad.name)
+				} else if res.Err == nil {
+					r.Violate("refused-digest/accepted/"+bad.name, "Start accepted a digest >= q", bad.name)
+				}
+				if len(nw.Nodes[p].Emitted) != 0 {
+					r.Violate("refused-digest/message-sent/"+bad.name, "a message was sent before the digest was refused", bad.name)
+				}
+			}
+		}
+	}
+
+	// schedules
+	var states, trans, traces int
+	explore := func(sc protomc.Scenario, mode string, devs int) {
+		sc.Cfg.RealRand = true
+		st := protomc.Explore(r, sc, protomc.Options{C07: true, Mode: mode, Deviations: devs, Workers: w, ResultOracle: scen.ResultOracle(sc)})
+		states += st.States
+		trans += st.Transitions
+		traces += st.JointReplays
+		r.Distinct("terminal_outcomes", fmt.Sprintf("%s#%d", sc.Name, st.DistinctOutcomes))
+		r.Set("cfg:"+sc.Name, map[string]interface{}{"mode": mode, "deviation_bound": devs, "states": st.States, "transitions": st.Transitions, "terminal_states_or_runs": st.Terminals, "replays": st.JointReplays})
+		if len(st.Samples) > 0 {
+			r.Sample(6, st.Samples[len(st.Samples)-1])
+		}
+		if st.Capped {
+			r.Cap("cap in " + sc.Name)
+		}
+		fmt.Printf("  %-50s mode=%s devs=%d states=%d trans=%d runs/terminals=%d\n", sc.Name, mode, devs, st.States, st.Transitions, st.Terminals)
+	}
+	explore(scen.EcSigning("small", 2, 1, []int{0, 1}, ds[3].m, 32, r.Seed), "joint", 0)
+	explore(scen.EcSigning("near-q", 3, 1, []int{0, 2}, ds[5].m, 0, r.Seed), "joint", 0)
+	if r.Tier == "thorough" {
+		explore(scen.EcSigning("near-q", 3, 1, []int{0, 1, 2}, ds[8].m, 0, r.Seed), "dev", 1)
+		explore(scen.EcSigning("large", 3, 2, []int{0, 1, 2}, ds[0].m, 32, r.Seed), "dev", 1)
+	} else {
+		explore(scen.EcSigning("near-q", 3, 1, []int{0, 1, 2}, ds[8].m, 0, r.Seed), "dev", 0)
+	}
+	r.Set("states", states)
+	r.Set("transitions", trans)
+	r.Set("traces_validated_against_impl", traces)
+	r.Set("schedule_part", "joint mode (every transition is a complete re-execution of the real network, so every explored trace is validated against the implementation): all schedules for 2 signers; FIFO [thorough: + every 1-deviation run] for 3 signers")
+	r.Assume("independent verifiers: reference textbook ECDSA over the reference curve, and btcec's verifier; recovery per SEC1 4.1.6 with the reference curve")
+	r.Assume("admissible fullBytesLen: absent or 32 (a digest is at most 32 bytes on secp256k1)")
+}
